@@ -20,6 +20,7 @@ import (
 //   read   E            ->  (*(*T)(simrt.RP(unsafe.Pointer(&(E)), size, site)))
 //   map    m[k] = v     ->  simrt.WM(m, site); m[k] = v        (also delete)
 //          m[k], len(m) ->  simrt.RM(m, site).(M)[k]
+//   append(s, ...)    ->  append(simrt.AP(s, site).([]T), ...)   (write to s[len:cap])
 //   sync   mu.Lock()    ->  simrt.MuLock(&(mu), site)           (Unlock, RLock, RUnlock)
 //          once.Do(f)   ->  simrt.OnceDo(&(once), f, site)
 
@@ -424,6 +425,20 @@ func (c *w3ctx) call(x *ast.CallExpr) {
 					if t := c.typeOf(x.Args[0]); t != nil {
 						if _, isMap := t.Underlying().(*types.Map); isMap {
 							c.wrapMapRead(x.Args[0])
+						}
+					}
+				}
+			case "append":
+				c.exprs(x.Args)
+				// append may write into the spare capacity of its first argument's
+				// backing array, which other slices (and threads) can share
+				if len(x.Args) >= 1 {
+					if ts, ok := c.spellable(c.typeOf(x.Args[0])); ok {
+						if _, isSlice := c.typeOf(x.Args[0]).Underlying().(*types.Slice); isSlice {
+							id := c.site("append", x.Args[0])
+							c.seq++
+							c.fc.insert(c.off(x.Args[0].Pos()), "simrt.AP(", -c.seq)
+							c.fc.insert(c.off(x.Args[0].End()), fmt.Sprintf(", %d).(%s)", id, ts), c.seq)
 						}
 					}
 				}
